@@ -371,7 +371,7 @@ def calc_brac_dur(asig, threshold, se=False):
     -------
     float
     """
-    abs_motion = abs(asig.values)
+    abs_motion = np.abs(np.asarray(asig.values, dtype=float))
 
     time = np.arange(asig.npts) * asig.dt
     # Bracketed duration
@@ -419,7 +419,7 @@ def calc_cumulative_abs_displacement(asig):
 
 def calc_integral_of_abs_acceleration(asig):
     """Integral of absolute acceleration"""
-    abs_acc = abs(asig.values)
+    abs_acc = np.abs(np.asarray(asig.values, dtype=float))
     acc_int = np.cumsum(abs_acc * asig.dt)
     return acc_int
 
@@ -444,6 +444,7 @@ def calc_n_cyc_array_w_power_law(values, a_ref, b, cut_off=0.01):
     array_like
     """
     from scipy.interpolate import interp1d
+    values = np.asarray(values, dtype=float)
     peak_indices = eqsig.fns.peaks_and_crossings.get_switched_peak_array_indices(values)
     csr_peaks = np.abs(np.take(values, peak_indices))
     csr_peaks = np.where(csr_peaks < cut_off * np.max(abs(values)), 1.0e-14 * np.max(abs(values)), csr_peaks)
@@ -470,6 +471,7 @@ def calc_cyc_amp_array_w_power_law(values, n_cyc, b):
     :param b:
     :return:
     """
+    values = np.asarray(values, dtype=float)
     a1_peak_inds_end = eqsig.fns.peaks_and_crossings.get_switched_peak_array_indices(values)
     a1_csr_peaks_end = np.abs(np.take(values, a1_peak_inds_end))
     csr_peaks_s1 = np.zeros_like(values)
@@ -519,6 +521,8 @@ def calc_cyc_amp_combined_arrays_w_power_law(values0, values1, n_cyc, b):
     -------
     array_like
     """
+    values0 = np.asarray(values0, dtype=float)
+    values1 = np.asarray(values1, dtype=float)
     peak_inds_a0 = eqsig.fns.peaks_and_crossings.get_switched_peak_array_indices(values0)
     csr_peaks_a0 = np.abs(np.take(values0, peak_inds_a0))
 
